@@ -50,9 +50,9 @@ def genTimeBytes (u : UtcFields) : Bytes :=
   [digit (y / 1000), digit (y / 100), digit (y / 10), digit y] ++ twoDigits u.month ++
   twoDigits u.day ++ twoDigits u.hour ++ twoDigits u.minute ++ twoDigits u.second ++ [90]
 
-/-- which year `write_dt_utc_or_generalized` looks at to choose the form: `dt.year()`, the
-    year *in the caller's offset* (lib.rs:562) -/
-def formYear (dt : DateTime) : Int := dt.year
+/-- which year `write_dt_utc_or_generalized` looks at to choose the form: the value is first
+    converted with `to_offset(UtcOffset::UTC)`, so it is the UTC year -/
+def formYear (dt : DateTime) : Int := dt.toUtc.year
 
 /-- lib.rs:555-570, as an ASN.1 node (total: see `timePanics` for the assertion outcome) -/
 def writeTime (dt : DateTime) : Asn1 :=
@@ -77,6 +77,11 @@ def genTimePanics (dt : DateTime) : Bool :=
   else
     let y := dt.toUtc.year
     !(0 ≤ y && y < 10000)
+
+/-- lib.rs `check_time`: the instant must lie in the UTC years 0..=9999 -/
+def timeEncodable (dt : DateTime) : Bool :=
+  let t := dt.epochSeconds
+  decide ((-62167219200 : Int) ≤ t) && decide (t ≤ 253402300799)
 
 /-- instant comparison of `OffsetDateTime` (`Ord`): whole seconds, then nanoseconds -/
 def DateTime.le (a b : DateTime) : Bool :=
